@@ -650,6 +650,22 @@ theorem mapM_ok_mem {α β} {f : α → Except PyErr β} {xs : List α} {ys : Li
     · obtain ⟨x', hx', hf⟩ := ih h2 h3
       exact ⟨x', List.mem_cons_of_mem _ hx', hf⟩
 
+theorem mapM_ok_mem_left {α β} {f : α → Except PyErr β} {xs : List α} {ys : List β}
+    (h : xs.mapM f = .ok ys) {x : α} (hx : x ∈ xs) : ∃ y ∈ ys, f x = .ok y := by
+  induction xs generalizing ys with
+  | nil => simp at hx
+  | cons x0 xs ih =>
+    rw [List.mapM_cons, Except.bind_ok_iff] at h
+    obtain ⟨y0, h1, h⟩ := h
+    rw [Except.bind_ok_iff] at h
+    obtain ⟨ys0, h2, h⟩ := h
+    rw [Except.pure_ok_iff] at h
+    subst h
+    rcases List.mem_cons.1 hx with h3 | h3
+    · subst h3; exact ⟨y0, List.mem_cons_self .., h1⟩
+    · obtain ⟨y, hy, hf⟩ := ih h2 h3
+      exact ⟨y, List.mem_cons_of_mem _ hy, hf⟩
+
 /-- the field sets `generate` feeds to `merge_field_sets` contain no optional -/
 theorem convert_optFree {cfg : GenCfg} {o : GenOracles} {samples : List Json} {sets : List Fields}
     (h : samples.mapM (convert cfg o) = .ok sets) :
